@@ -11,33 +11,26 @@ Definition alnum_oracle (is_alnum : N -> bool) : Prop :=
   forall c, c < 128 -> is_alnum c = ascii_alnum c.
 
 (* the rewriting of the master text: for every formula of the token grammar, at every offset
-   that keeps its references on the sheet, outside the known classes, the real scanner returns
-   the text of the formula whose relative reference components moved by the offset — mixed
-   references, look-alike function / sheet / defined names, non-ASCII text, quotes inside quoted
-   sheet names, long digit runs and bracketed references included *)
+   that keeps its references on the sheet, the real scanner returns the text of the formula
+   whose relative reference components moved by the offset — cell references in all four $
+   forms, whole-column and whole-row ranges, and unchanged: look-alike function / sheet / defined
+   names, 3-D sheet prefixes, non-ASCII text, quotes inside quoted sheet names, long digit runs,
+   bracketed references.  No known class is left: the statement is unconditional over the
+   grammar. *)
 Theorem C15_translate_correct :
   forall is_alnum, alnum_oracle is_alnum ->
   forall ts off,
-    wf_formula is_alnum ts = true -> in_range ts off -> known_C15 ts = None ->
+    wf_formula is_alnum ts = true -> in_range ts off ->
     replace_cell_names is_alnum (render_all ts) off = Ok (render_all (map (translate off) ts)).
 Proof. exact translate_correct. Qed.
 
-(* the same with the class taken at the offset: whole-column ranges are fine when the column
-   offset is 0 (vertical groups), whole-row ranges when the row offset is 0 *)
-Theorem C15_translate_correct_at :
-  forall is_alnum, alnum_oracle is_alnum ->
-  forall ts off,
-    wf_formula is_alnum ts = true -> in_range ts off -> known_at off ts = None ->
-    replace_cell_names is_alnum (render_all ts) off = Ok (render_all (map (translate off) ts)).
-Proof. exact translate_correct_at. Qed.
-
 (* every offset between two cells of a sheet, also where a translated reference would leave the
-   sheet (outside the property's domain): that reference is reproduced unchanged, nothing else
-   is affected; whole-column / whole-row ranges are never moved *)
+   sheet (outside the property's domain): that reference (cell, whole-column or whole-row range)
+   is reproduced unchanged as a whole, nothing else is affected *)
 Theorem C15_translate_total :
   forall is_alnum, alnum_oracle is_alnum ->
   forall ts off,
-    wf_formula is_alnum ts = true -> off_ok off = true -> forallb no3d ts = true ->
+    wf_formula is_alnum ts = true -> off_ok off = true ->
     replace_cell_names is_alnum (render_all ts) off = Ok (render_all (map (translate_clip off) ts)).
 Proof. exact translate_total. Qed.
 
@@ -79,15 +72,14 @@ Proof. exact no_panic_next_formula_nonvacuous. Qed.
 Example C15_translate_correct_nonvacuous :
   alnum_oracle ascii_alnum /\
   wf_formula ascii_alnum ex_tokens = true /\ in_range ex_tokens (5, 2)%Z /\
-  known_C15 ex_tokens = None /\
   render_all (map (translate (5, 2)%Z) ex_tokens) <> render_all ex_tokens /\
   replace_cell_names ascii_alnum (render_all ex_tokens) (5, 2)%Z
     = Ok (render_all (map (translate (5, 2)%Z) ex_tokens)).
 Proof. split; [exact ascii_oracle|exact translate_correct_nonvacuous]. Qed.
 
 (* the groups: on every sheet of well-formed groups — column, row or block refs, the master
-   anywhere, shared indices in any document order, repeated or with gaps — whose members are
-   outside the known classes, every cell is reported with the formula the property demands: a
+   anywhere, shared indices in any document order, repeated or with gaps — whose member formulas
+   are of the grammar and stay on the sheet, every cell is reported with the formula the property demands: a
    member inside the declared ref of the group its index denotes gets the master formula
    translated by its own offset, every other cell keeps its own text *)
 Theorem C15_group_covers_range :
@@ -113,29 +105,24 @@ Example C15_group_covers_range_nonvacuous :
   nth_error (spec_cells [] ex_sheet) 9 = Some ((6, 0), [75]).
 Proof. exact group_covers_range_nonvacuous. Qed.
 
-(* known classes: each is inhabited inside the grammar and inside [in_range], and the model
-   (= the real code, see the correspondence check) does not return the translated text *)
-Theorem C15_refuted_whole_range :
-  exists ts off, wf_formula ascii_alnum ts = true /\ in_range ts off /\
-    known_C15 ts = Some CL_WHOLE /\ known_at off ts = Some CL_WHOLE /\
-    replace_cell_names ascii_alnum (render_all ts) off = Ok (render_all ts) /\
-    render_all ts <> render_all (map (translate off) ts).
-Proof. exact refuted_whole_range. Qed.
-Theorem C15_refuted_sheet3d :
-  exists ts off, wf_formula ascii_alnum ts = true /\ in_range ts off /\
-    known_C15 ts = Some CL_SHEET3D /\
-    replace_cell_names ascii_alnum (render_all ts) off = Ok [81;50;58;81;51;33;65;50] /\
-    render_all (map (translate off) ts) = [81;49;58;81;51;33;65;50].
-Proof. exact refuted_sheet3d. Qed.
-Theorem C15_refuted_group_whole_range :
-  exists cs, sheet_okb ascii_alnum [] cs = false /\
-    run_cells ascii_alnum [] (map encode_cell cs) <> Ok (spec_cells [] cs).
-Proof. exact refuted_group_whole_range. Qed.
+(* the classes repaired last, as examples of the theorems above: SUM(A:$B) one column to the
+   right, SUM(1:3) two rows down, ranges that would leave the sheet, Q1:Q3!A1 *)
+Example C15_whole_range_and_sheet3d_fixed_nonvacuous :
+  replace_cell_names ascii_alnum (render_all wt_whole_cols) (0, 1)%Z = Ok [83;85;77;40;66;58;36;66;41] /\
+  replace_cell_names ascii_alnum (render_all wt_whole_rows) (2, 0)%Z = Ok [83;85;77;40;51;58;53;41] /\
+  replace_cell_names ascii_alnum [65;58;66] (0, -1)%Z = Ok [65;58;66] /\
+  replace_cell_names ascii_alnum (render_all wt_sheet3d) (1, 0)%Z = Ok [81;49;58;81;51;33;65;50].
+Proof.
+  exact (conj (proj1 (proj2 (proj2 whole_range_fixed)))
+        (conj (proj1 (proj2 (proj2 (proj2 (proj2 (proj2 whole_range_fixed))))))
+        (conj (proj1 (proj2 (proj2 (proj2 (proj2 (proj2 (proj2 whole_range_fixed)))))))
+              (proj2 (proj2 sheet3d_fixed))))).
+Qed.
 
 Check C15_translate_correct :
   forall is_alnum, (forall c, c < 128 -> is_alnum c = ascii_alnum c) ->
   forall ts off,
-    wf_formula is_alnum ts = true -> in_range ts off -> known_C15 ts = None ->
+    wf_formula is_alnum ts = true -> in_range ts off ->
     replace_cell_names is_alnum (render_all ts) off = Ok (render_all (map (translate off) ts)).
 Check C15_group_covers_range :
   forall is_alnum, (forall c, c < 128 -> is_alnum c = ascii_alnum c) ->
@@ -146,7 +133,6 @@ Check C15_group_covers_range :
       = Ok (filter (fun pv => nonempty (snd pv)) (spec_cells [] cs)).
 
 Print Assumptions C15_translate_correct.
-Print Assumptions C15_translate_correct_at.
 Print Assumptions C15_translate_total.
 Print Assumptions C15_no_panic.
 Print Assumptions C15_no_panic_get_row_column.
@@ -154,6 +140,3 @@ Print Assumptions C15_no_panic_get_dimension.
 Print Assumptions C15_no_panic_replace_cell_names.
 Print Assumptions C15_no_panic_next_formula.
 Print Assumptions C15_group_covers_range.
-Print Assumptions C15_refuted_whole_range.
-Print Assumptions C15_refuted_sheet3d.
-Print Assumptions C15_refuted_group_whole_range.
